@@ -42,4 +42,3 @@ for name, props, file, old, new in M:
     print(name, "suite", suite, "killed by", [k["prop"] for k in r["killed_by"]], "survived", [k["prop"] for k in r["survived"]], flush=True)
     json.dump(results, open(res_path, "w"), indent=1)
 sh(f"git -C /repo worktree remove --force {WT}")
-sh("rm -rf /verif/.build/alt-* /verif/.build/altbin-*")
